@@ -344,11 +344,11 @@ func generateMore(corpus bool) {
 		// spin in talkSub -> readDeviceInfo -> io.ReadFull over a never-written Chunk
 		runHandle("hr", none, plainBytes(pk["multidev-empty-hello"]()), "corpus")
 		runHandle("hs", none, plainBytes(pk["empty-hello"]()), "corpus")
-		// a decompression bomb: 4 MiB of zeros as the body of a hello, through the zlib wrapper
+		// a decompression bomb: 8 MiB of zeros as the body of a hello, through the zlib wrapper
 		for _, pn := range []string{"zlib", "gzip"} {
 			p := profileByName(pn)
 			n := &com.Packet{ID: 2, Device: devA()}
-			n.Write(make([]byte, 4<<20))
+			n.Write(make([]byte, 8<<20))
 			runHandle("hs", p, encode(p, n), "corpus")
 		}
 		return
